@@ -874,7 +874,7 @@ def _a_convert():
     cond = bool_expr_cmp(inner.test, {'src_info.min': 'smin', 'src_info.max': 'smax', 'dst_info.min': 'dmin', 'dst_info.max': 'dmax'})
     rest = texts[7:]
     if rest != ["with np.errstate(invalid='ignore', over='ignore'):\n    array = array.astype(dtype, copy=False, casting='unsafe')",
-                'if nodata_change or (nodata is not None and unsafe_cast):\n    array[~self.mask] = nodata', 'return array']:
+                'if nodata_change or (nodata is not None and unsafe_cast):\n    array[..., ~self.mask] = nodata', 'return array']:
         raise TranslationError(f'_convert_array_dtype: final steps {rest}')
     return [('convert_clipNeeded', '(smin smax dmin dmax : Int)', 'Bool', cond, '_convert_array_dtype: ' + U(inner.test))]
 
@@ -1166,8 +1166,8 @@ def _a_write():
     from homonim.raster_array import RasterArray
     fn = fn_body(src_of(RasterArray.to_rio_dataset))
     texts = [U(st) for st in fn.body if not (isinstance(st, ast.Expr) and isinstance(st.value, ast.Constant))]
-    tail = texts[texts.index('if window is None:\n    window = rio_dataset.window(*self.bounds)'):]
-    want = ['if window is None:\n    window = rio_dataset.window(*self.bounds)',
+    tail = texts[texts.index('if window is None:\n    window = utils.round_window_to_grid(rio_dataset.window(*self.bounds))'):]
+    want = ['if window is None:\n    window = utils.round_window_to_grid(rio_dataset.window(*self.bounds))',
             'window, _ = self.bounded_window_slices(rio_dataset, window)',
             'if window.width <= 0 or window.height <= 0:\n    return',
             'bounded_ra = self.slice_to_bounds(*rio_dataset.window_bounds(window))']
